@@ -67,6 +67,8 @@ def queue_vs_execute(acc, rnd, focus):
 
     def executor():
         for _ in range(rnd.randint(3, 10)):
+            if rnd.random() < 0.5:
+                it.clock.time += rnd.choice((1, 5))         # the step time moves while clients are inside queue()
             step = it.execute_once()
             if step is not None and step.event is not None:
                 consumed.append(step.event.data.get('u'))
